@@ -3,6 +3,7 @@
 // the sequential ones. Also the translation unit whose AST the write-effect extractor reads.
 #include <yorel/yomm2/keywords.hpp>
 #include <atomic>
+#include <map>
 #include <cstdio>
 #include <cstdlib>
 #include <memory>
@@ -18,6 +19,11 @@ struct P2 : policy::debug::rebind<P2>::replace<policy::error_handler, policy::th
 struct P3 : policy::basic_policy<P3, policy::std_rtti, policy::vptr_map<P3>, policy::throw_error> {};
 struct P4 : policy::basic_policy<P4, policy::std_rtti, policy::fast_perfect_hash<P4>, policy::vptr_vector<P4>,
                                  policy::basic_indirect_vptr<P4>, policy::throw_error> {};
+// a stateful facet with a non-default extra template argument, and a policy obtained from it by rebind
+using OrderedMap = std::map<type_id, const std::uintptr_t*>;
+struct P5 : policy::basic_policy<P5, policy::std_rtti, policy::vptr_map<P5, OrderedMap>, policy::throw_error> {};
+struct Plugin : P5::rebind<Plugin> {};
+template<int N> struct Unrelated { virtual ~Unrelated() {} };
 template<class Pol>
 struct T {
     template<class C> using VP = virtual_ptr<C, Pol>;
@@ -70,20 +76,27 @@ struct T {
 int main(int argc, char** argv) {
     int threads = argc > 1 ? std::atoi(argv[1]) : 8;
     int iters = argc > 2 ? std::atoi(argv[2]) : 3000;
-    T<P1>::reg(); T<P2>::reg(); T<P3>::reg(); T<P4>::reg();
+    T<P1>::reg(); T<P2>::reg(); T<P3>::reg(); T<P4>::reg(); T<P5>::reg();
     struct Other : policy::release::rebind<Other> {};
     static use_classes<Animal, Dog, Cat, Other> oc;
-    update<P1>(); update<P2>(); update<P3>(); update<P4>(); update<Other>();
-    long ref[4] = {T<P1>::work(iters), T<P2>::work(iters), T<P3>::work(iters), T<P4>::work(iters)};
+    static use_classes<Unrelated<0>, Unrelated<1>, Unrelated<2>, Unrelated<3>, Unrelated<4>, Unrelated<5>, Unrelated<6>, Unrelated<7>,
+                       Unrelated<8>, Unrelated<9>, Unrelated<10>, Unrelated<11>, Unrelated<12>, Unrelated<13>, Unrelated<14>, Plugin> pc;
+    // every facet of a rebound policy is keyed on the new policy: no static of P5 belongs to Plugin
+    const bool rekeyed = std::is_base_of_v<policy::vptr_map<Plugin, OrderedMap>, Plugin> &&
+        !std::is_base_of_v<policy::vptr_map<P5, OrderedMap>, Plugin>;
+    update<P1>(); update<P2>(); update<P3>(); update<P4>(); update<P5>(); update<Other>();
+    long ref[5] = {T<P1>::work(iters), T<P2>::work(iters), T<P3>::work(iters), T<P4>::work(iters), T<P5>::work(iters)};
     std::vector<std::thread> ts;
     std::atomic<int> bad{0};
     for (int t = 0; t < threads; t++)
         ts.emplace_back([&, t] {
-            long r = t % 4 == 0 ? T<P1>::work(iters) : t % 4 == 1 ? T<P2>::work(iters) : t % 4 == 2 ? T<P3>::work(iters) : T<P4>::work(iters);
-            if (r != ref[t % 4]) bad++;
+            long r = t % 5 == 0 ? T<P1>::work(iters) : t % 5 == 1 ? T<P2>::work(iters) : t % 5 == 2 ? T<P3>::work(iters)
+                   : t % 5 == 3 ? T<P4>::work(iters) : T<P5>::work(iters);
+            if (r != ref[t % 5]) bad++;
         });
-    ts.emplace_back([&] { for (int i = 0; i < 40; i++) update<Other>(); });
+    ts.emplace_back([&] { for (int i = 0; i < 40; i++) { update<Other>(); update<Plugin>(); } });
     for (auto& t : ts) t.join();
-    std::printf("ref %ld %ld %ld %ld threads=%d bad=%d\n", ref[0], ref[1], ref[2], ref[3], threads, (int)bad);
+    if (!rekeyed) bad++;
+    std::printf("ref %ld %ld %ld %ld %ld threads=%d rekeyed=%d bad=%d\n", ref[0], ref[1], ref[2], ref[3], ref[4], threads, (int)rekeyed, (int)bad);
     return bad ? 1 : 0;
 }
